@@ -44,9 +44,16 @@ CLAIMS['C12'] = dict(
     text='Unbounded proof over all chunkings: the inner reader is specified only as "delivers its pending bytes front to back in chunks of any size", and '
          'StripHeaderReader::strip_head_read / read are verified per call against a ghost stream model (what the wrapper will still hand on = header rule applied '
          'to what the inner reader still holds); strip_junk_header is verified against the same header automaton, so both paths hand the JSON parser the same bytes '
-         'up to one leading newline and reject exactly the bare-CR header.',
-    note=_TB + 'The std::io::Read contract (prelude/io_read.rs) is assumed of every inner reader; serde_json skipping leading whitespace and agreeing between '
-         'from_reader and from_slice is assumed; #[derive(PartialEq)] on HeaderState is taken as variant equality.',
+         'up to one leading newline and reject exactly the bare-CR header. On top of that the entry points themselves (u21): decode, decode_slice, decode_data_url, '
+         'is_sourcemap_impl / is_sourcemap_slice_impl / is_sourcemap / is_sourcemap_slice are verified against one statement over the BYTES -- an error for a bare CR in the '
+         'junk header or a document the JSON layer rejects, otherwise what decode_common makes of the document left by the header rule (decode_post), resp. "true exactly for a '
+         'document that survives the header rule, parses, and has the keys" (detect_post) -- so the reader path (any reliable reader, however it cuts the stream) and the slice '
+         'path are proved to satisfy the same functional statement (lemma_reader_and_slice_agree, lemma_detection_agrees: an equal result or an error on both sides), and a base64 '
+         'data URL with either preamble decodes to what its payload decodes to.',
+    note=_TB + 'The std::io::Read contract (prelude/io_read.rs) is assumed of every inner reader. The JSON layer, the base64 reader, and decode_common are uninterpreted FUNCTIONS of their input '
+         '(prelude/shim_entry.rs): serde_json::from_slice = json_raw / json_min of the bytes, one leading newline is JSON whitespace; serde_json::from_reader over BufReader over the StripHeaderReader parses '
+         'exactly the stream the per-call contract of read delivers (chunking independence of serde / BufReader is the assumption, that of StripHeaderReader is proved); an unreliable reader (one that reports an '
+         'error of its own) may turn any outcome into an error; decode_common returns the same result for the same document. #[derive(PartialEq)] on HeaderState is taken as variant equality.',
     design_ref='DESIGN.md 5 C12')
 
 CLAIMS['C13'] = dict(
@@ -112,7 +119,7 @@ CLAIMS['C14'] = dict(
          'decoder inside decode_hermes (the closure body, outlined) computes the independent reading of Metro\'s format (spec/hermes_decode.rs: groups by \';\', segments by '
          '\',\', column relative within a group, name index and line relative across the string, line starting at 1 and advanced only by the third value, omitted values = 0): '
          'Some(entries) exactly as the reference reads them, None exactly when a segment is not valid VLQ. The wrapper (first scope mapping of each non-null entry, collect, '
-         'decode_regular of the rest, raw metadata kept for re-encoding) and get_original_function_name are bounded only.',
+         'decode_regular of the rest, raw metadata kept for re-encoding) is bounded only; (3) SourceMapHermes::get_original_function_name(offset) is the scope lookup of the token that C04 says (0, offset) resolves to, nothing when no token lies at or before it.',
     note=_TB + 'function maps are required ordered by (line, column), as Metro emits them. Values leaving the u32 range are outside the domain (Unfit).',
     design_ref='DESIGN.md 5 C14')
 
@@ -226,7 +233,7 @@ NOT_APPLICABLE['C16'] = ('concurrency (interleavings of threads sharing a Source
 NOT_COVERED = {
     'C15': ['the sequential reading of Mutex / AtomicUsize is an assumption (R-seq); threads are C16', 'SourceView::from_string / clone (other constructors), Lines as an Iterator impl (verified as the inherent method, R-trait-inherent)', 'the unsafe lifetime extension of cached lines'],
     'C17': ['SourceMapIndex / DecodedMap::get_original_function_name wrappers (index lookup, proved in C08, then the same walk): not under contract; the bounded stand-in function_name covers SourceView:: and SourceMap::get_original_function_name', 'token columns that fall inside a surrogate pair (outside the precondition `aligned`): bounded only', 'std\'s Take / Peekable adapters (assumed contract over the walker\'s proved contract)'],
-    'C18': ['how BufReader::lines cuts bytes into lines (std; assumed -- exercised by the bounded stand-in discover incl. texts larger than any buffer)', 'to_data_url / decode_data_url round trip (base64 of two crates): bounded', 'is_sourcemap / is_sourcemap_slice wiring around serde_json: bounded (header, discover)'],
+    'C18': ['how BufReader::lines cuts bytes into lines (std; assumed -- exercised by the bounded stand-in discover incl. texts larger than any buffer)', 'to_data_url (JSON writer + base64 writer of another crate than the reader) and therefore the data URL round trip: bounded (decode_data_url itself is under contract: the payload after either preamble, base64-decoded, goes through decode_slice)', 'that the serialised form of every map parses to a document with the keys (serde layer): bounded (header, discover); the predicates themselves are under contract (u21)'],
     'C19': ['the std adapter chains inside make_relative_path are behind assumed contracts (split/filter/collect, sort_by_key, repeat/take/collect, join); the bounded stand-in relpath exercises the real ones', 'find_common_prefix (the rewrite "~" option): not part of C19'],
     'C20': ['scroll::Pread internals and the derive(Pread) expansion (assumed contracts; exercised by the bounded stand-in ram_bundle)', 'UnbundleRamBundle (file-system based variant)', 'split_ram_bundle / SplitRamBundleModuleIter (composition with flatten and SourceMapBuilder)', 'that Iterator::next of RamBundleModuleIter is the inherent body verified here (R-trait-inherent: same text, emitted outside the trait impl)'],
     'C10': ['inputs with an empty stretch (two tokens at one position, column u32::MAX): the exactly-one-token clause is conditional on non-empty stretches (known finding D10 lives there); bounded stand-in adjust_dups', 'positions >= 2^30 (`as i32` arithmetic): outside the precondition'],
@@ -234,13 +241,13 @@ NOT_COVERED = {
     'C05': ['dependencies (serde_json, url, bitvec, data-encoding, base64-simd, debugid)', 'sourceview.rs, js_identifiers.rs, detector.rs line scan, Display/Debug impls, ram_bundle.rs',
             'flatten (+ off_col / + off_line overflow, design-phase defect D6), rewrite, adjust_mappings, range bitfield writer (D4), decode_hermes', 'allocation in proportion to the input; wall-clock (only termination is proved)'],
     'C08': ['agreement lookup vs flatten for index maps with NESTED index sections (the lemma covers regular and Hermes sections): bounded stand-in index_nested', 'the hypotheses of the agreement lemma are the postconditions of executed functions; no concrete witness is constructed inside Verus (Vec values cannot be built in spec code), the stand-ins index_flatten / index_nested run the real functions on such inputs', 'flatten_and_rewrite (composition of two proved functions, not itself under contract)'],
-    'C14': ['decode_hermes wrapper around the function-map decoder (destructuring of the first scope mapping, collect, decode_regular): bounded stand-in hermes_scope', 'get_original_function_name wrapper', 'stability under serialise/decode (raw metadata retained): bounded'],
+    'C14': ['decode_hermes wrapper around the function-map decoder (destructuring of the first scope mapping, collect, decode_regular): bounded stand-in hermes_scope', 'DecodedMap::get_original_function_name dispatch (line != 0 => nothing for Hermes maps): bounded', 'stability under serialise/decode (raw metadata retained): bounded'],
     'C01': ['as_raw_sourcemap field plumbing (SourceMap / SourceMapIndex / Hermes): bounded stand-in roundtrip only', 'serde_json layer'],
     'C02': ['the six `let` lines of decode_regular that unpack the raw document (checked textually, not verified)', 'termination of the decode_index / decode_common recursion (bounded by serde_json)', 'decode_hermes'],
     'C03': ['as_raw_sourcemap field plumbing and the serde skip_serializing_if attributes', 'index-map documents (sections array): bounded only'],
     'C07': ['document plumbing (as_raw_sourcemap writes the key only when a range token exists; decode_regular hands the strings to the loop): bounded stand-in rmi_roundtrip; the token-level round trip with flags is proved (lemma_document_roundtrip_with_ranges)'],
     'C11': ['an independent syntactic characterisation of canonical texts (canonical is defined as the image of the reference encoder)'],
-    'C12': ['detection predicates is_sourcemap / is_sourcemap_slice wiring', 'decode_data_url'],
+    'C12': ['the JSON layer and the base64 reader themselves (uninterpreted functions of the bytes; their chunking independence is assumed): bounded stand-in header runs the real ones', 'the typed wrappers SourceMap::from_reader / from_slice etc. (match on the decoded kind)'],
     'C13': ['"serialisation writes raw names plus root" (as_raw_sourcemap)', 'strip_prefixes'],
     'C04': ['rewrite / flatten as token producers are covered through into_sourcemap / SourceMap::new (proved); adjust_mappings through its own clause ens_result_ordered_by_generated_position'],
 }
